@@ -626,6 +626,24 @@ STRING_TERMINALS += [r'"a\\"', r'"a\\\\"', r'"\\\\"', r'"x\\y"', r'"x\\\y"']
 # raw ASCII control characters other than TAB/LF/CR inside terminals (form feed, vertical tab, FS, GS, RS): printed raw, lexed raw
 STRING_TERMINALS += ['"\x0c"', '"a\x0cb"', '"\x0b"', '"a\x1cb"', '"\x1d"', '"x\x1e"']
 REGEXP_TERMINALS += ['/a\x0cb/', '/\x0b/', '/x\x1c/']
+# escaped quotes and escaped backslashes before a quote: render_rules doubles every backslash and then turns `\\'` back into `\'`, so the
+# generated module reads `\'` as `'` (clean behaviour, see quote_fixup_show); the gram lexer keeps an escaped delimiter inside the terminal
+STRING_TERMINALS += ['"\\\'"', '"a\\\'b"', '"\\\\\'"']
+REGEXP_TERMINALS += ["/\\'/", "/a\\'b/", "/\\\\'/", '/\\"/', "/[^\\'\\\\]+/"]
+
+
+def unescaped_quote_or_line_break(v: str) -> bool:
+	"""What render_rules of the clean tree cannot express (known finding render-import:quote-or-line-break-in-terminal): a single quote
+	that no backslash precedes, a raw LF or CR. An ESCAPED quote `\'` is handled by the second fix-up and is NOT part of it."""
+	return bool(re.search(r"(?<!\\)'", v)) or '\n' in v or '\r' in v
+
+
+def quote_fixup_show(show: str) -> str:
+	"""`rules_show` text of what the module written by the clean render_rules evaluates to: Python reads the rendered `\'` as `'`, so every
+	`\'` inside a terminal arrives as `'` (py_rules.py relies on it); everything else arrives unchanged."""
+	return re.sub(r'p:([0-9a-f]+):', lambda m: 'p:' + hx(bytes.fromhex(m.group(1)).decode('utf-8').replace("\\'", "'")) + ':', show)
+
+
 SYMBOL_NAMES = ['entry', 'expr', 'term', 'atom', 'name', 'op', 'x', 'y1', 'a_b', 'Rule', 'list', 'item', '_u', 'n0']
 
 
